@@ -51,9 +51,12 @@ Step(e) ==
     [] e.ev = "fail"  -> UNCHANGED <<s, st, sid, stalled>>
     [] e.ev = "stall" -> stalled' = TRUE /\ UNCHANGED <<s, st, sid>>
     [] e.ev = "want"  ->
+         \* (a client cannot have pulled what the peer has not released: anything else means the recording is broken)
+         /\ Assert(e.pulled <= st.arrived, <<"recording broken: more octets pulled than released", l, sid>>)
          /\ Report(l, sid, s, WantViolations(s, st))
          /\ UNCHANGED <<s, st, sid, stalled>>
     [] e.ev = "ret"   ->
+         /\ Assert(e.pulled <= st.arrived, <<"recording broken: more octets pulled than released", l, sid>>)
          /\ Report(l, sid, s, RetViolations(s, st, e))
          \* which kind of error (ErrorKinds.tla): C13's "only real timeouts", and the extended guards (notes)
          /\ (~G13_onlyRealTimeouts(s, stalled, e)) => Viol(l, sid, "C13", "G13_onlyRealTimeouts", e.kind)
